@@ -101,7 +101,8 @@ CONTEXTS = {
     "pages+outer": ('QE @2 QC <pages index="R" from=1 to=1 /> QD', {"R/1": "QA %s QB"}),
     "pages+outer2": ('* QE @2 QF @2\n<pages index="R" from=1 to=2 />\nQD', {"R/1": "QG @2 QH", "R/2": "QA %s QB"}),
     "pages+after": ('QC <pages index="R" from=2 to=2 /> QD @2', {"R/2": "{{echo|QA %s QB}}"}),
-    "pages-by-title": ('@2 QC <pages from="R/1" to="R/1" /> QD', {"R/1": "QA %s QB"}),
+    # by title: the range is asked from the wiki (db.select); DictDB lower-cases its keys, so a caseless title
+    "pages-by-title": ('@2 QC <pages from="7/1" to="7/2" /> QD', {"7/1": "QA %s QB", "7/2": "QG @2 QH"}),
 }
 THOROUGH_CONTEXTS = {
     "heading": ("== QA %s QB ==\ntext", False),
